@@ -340,12 +340,12 @@ Definition ad_ctype (t : ctype) : bool := match t with TBU | TTBU | TBO | TTBO =
 
 (** *** C16 (and the limit half of C09) at every moment of every history: when an item is
     pulled from upstream, fewer than [n] earlier items are pulled and not yet yielded *)
-Theorem pulls_respect_both_limits ty p inits ups rest pre c post :
+Lemma history_HI ty p inits ups rest :
   ad_ctype ty = true ->
-  hist_of (OBuild ty p inits ups :: rest) = pre ++ EUpPoll (UAItem c) :: post ->
-  npull pre < p_cap p + nyield pre /\ nyield pre <= nprodc pre.
+  HI (p_cap p) (st_coll (run_state P init_state (OBuild ty p inits ups :: rest)))
+     (rev (hist_of (OBuild ty p inits ups :: rest))).
 Proof.
-  intros Hty Hh.
+  intros Hty.
   set (s1 := fst (step_op P init_state (OBuild ty p inits ups))).
   assert (Hs1 : Inv s1) by (apply step_inv; auto; apply Inv_init).
   assert (H1 : bty (st_coll s1) /\ HI (p_cap p) (st_coll s1) (log (st_world s1) ++ [])).
@@ -387,12 +387,37 @@ Proof.
       split; [exact I|]. split; auto. cbn [st_coll st_world ad_q q_cap]. split; [exact Hcap|].
       cbn [parked_of ad_q parked_q] in Hpk. unfold BI. cbn [q_len parked_q]. rewrite N2, N3, N4, Hlen, Hpk. splits; auto. constructor. }
   destruct H1 as [Hk1 HI1].
-  pose proof (@backpressure_log_from (p_cap p) s1 rest _ Hk1 Hs1 HI1) as [Hbp _].
+  pose proof (@backpressure_log_from (p_cap p) s1 rest _ Hk1 Hs1 HI1) as H.
   assert (E : rlog_from s1 rest (log (st_world s1) ++ []) = rev (hist_of (OBuild ty p inits ups :: rest))).
   { unfold rlog_from, hist_of. cbn [run_logs]. cbn [is_dead init_state st_coll]. fold s1.
     rewrite rlog_rev. cbn [app flat_map]. rewrite rev_app_distr, rev_involutive, app_nil_r. reflexivity. }
-  rewrite E, Hh, rev_app_distr in Hbp. cbn [rev] in Hbp. rewrite <- app_assoc in Hbp. cbn [app] in Hbp.
+  rewrite E in H. cbn [run_state]. fold s1. exact H.
+Qed.
+
+Theorem pulls_respect_both_limits ty p inits ups rest pre c post :
+  ad_ctype ty = true ->
+  hist_of (OBuild ty p inits ups :: rest) = pre ++ EUpPoll (UAItem c) :: post ->
+  npull pre < p_cap p + nyield pre /\ nyield pre <= nprodc pre.
+Proof.
+  intros Hty Hh. destruct (@history_HI ty p inits ups rest Hty) as [Hbp _].
+  rewrite Hh, rev_app_distr in Hbp. cbn [rev] in Hbp. rewrite <- app_assoc in Hbp. cbn [app] in Hbp.
   apply bp_split in Hbp; [|simpl; discriminate]. rewrite npull_rev, nyield_rev, nprodc_rev in Hbp. exact Hbp.
+Qed.
+
+(** *** exact accounting between operations, over the whole history: every item pulled so far is
+    either yielded or still in the queue (running or parked) - none lost, none counted twice -
+    and every future that has finished is either yielded or parked *)
+Theorem adapter_accounting ty p inits ups rest a :
+  ad_ctype ty = true ->
+  st_coll (run_state P init_state (OBuild ty p inits ups :: rest)) = CAd a ->
+  let h := hist_of (OBuild ty p inits ups :: rest) in
+  q_cap (ad_q a) = p_cap p
+  /\ npull h = nyield h + q_len (ad_q a)
+  /\ nprodc h = nyield h + length (parked_q (ad_q a)).
+Proof.
+  intros Hty Hc. cbv zeta. destruct (@history_HI ty p inits ups rest Hty) as [_ Hm].
+  rewrite Hc in Hm. destruct Hm as (Hcap & _ & I2 & _ & I4).
+  rewrite npull_rev, nyield_rev in I2. rewrite nprodc_rev, nyield_rev in I4. auto.
 Qed.
 
 (** C16: pulled-but-unyielded items (running futures + parked outputs) *)
